@@ -382,6 +382,10 @@ def run_history(shape="pass-loop", slack=60):
                 fails.append(("history:failed-within-limit:" + shape, "failed with %d events (limit %d): %r" % (n, L_HIST, d.get("error"))))
             if n > L_HIST + slack:
                 fails.append(("history:grew-far-past-limit:" + shape, "%d events" % n))
+            # the failure itself is on record: the history ends with the ExecutionFailed event that DescribeExecution reports (the quota must not cut the log short of it)
+            last = hist()[-1] if n else {}
+            if last.get("type") != "ExecutionFailed" or (last.get("executionFailedEventDetails") or {}).get("error") != d.get("error"):
+                fails.append(("history:terminal-event-missing:" + shape, "execution FAILED with %r but the last of %d history events is %s %r" % (d.get("error"), n, last.get("type"), last.get("executionFailedEventDetails"))))
     finally:
         w.close()
     return fails
